@@ -284,6 +284,11 @@ def do_replay(prop: str, path: str) -> int:
         from .props import persist_env
         persist_env.replay(case)
         return 0
+    if prop == "C15" and ("new" in case or "chain" in case):
+        # C15: the old / new registries (or the chain of in-place changes) saved again under the recorder; every crash state,
+        # simulated and observed in the real directory, loaded again
+        from .props import fileops
+        return fileops.replay(case)
     if prop == "C17" and "delivery" in case:
         # C17: writes and a disconnect over a real loopback connection to a peer with a reading policy: re-executed
         from .props import stream
